@@ -629,6 +629,12 @@ func (l *LanguageServer) StartConfigWorker(ctx context.Context) {
 				if ok {
 					l.cache.Delete(k)
 					l.cache.SetIgnoredFileContents(k, contents)
+
+					// diagnostics may have been published for the file before this config was loaded
+					// (the workspace is first linted with the default config): clear them on the client
+					if err := l.sendFileDiagnostics(ctx, k); err != nil {
+						l.logf(log.LevelMessage, "failed to send diagnostic: %s", err)
+					}
 				}
 
 				if err := RemoveFileMod(ctx, l.regoStore, k); err != nil {
